@@ -2163,6 +2163,116 @@ theorem cartCentre_mem (labels : Labels) (q : Cell × String) :
   · rintro ⟨p, ⟨hp, hne⟩, rfl⟩; exact ⟨p, hp, by simpa using hne, rfl⟩
   · rintro ⟨p, hp, hne, rfl⟩; exact ⟨p, ⟨hp, by simpa using hne⟩, rfl⟩
 
+/-! ### which map class reads and writes a grid blueprint -/
+
+/-- the tips-up class is used exactly for `geom: hex_corners_up` with a full-core symmetry -/
+theorem dispatch_tips_iff (g d : String) : dispatch g d = some .tips ↔ (g = "hex_corners_up" ∧ d = "full") := by
+  unfold dispatch
+  by_cases h : (g == "hex_corners_up" && d == "full") = true
+  · simp only [h, if_true, true_iff]; simpa using h
+  · simp only [h, Bool.false_eq_true, if_false]
+    constructor
+    · intro h2; split at h2 <;> simp at h2
+    · intro h2; simp [h2.1, h2.2] at h
+
+/-- a writer that dispatches on the PARSED geometry (corners-up collapsed to HEX) never draws a tips-up map: the class
+has to be chosen from the geometry string, as reading does -/
+theorem dispatchParsed_never_tips (g d : String) : dispatchParsed g d ≠ some .tips := by
+  unfold dispatchParsed
+  split
+  · intro h; have := (dispatch_tips_iff "hex" d).mp h; simp at this
+  · intro h; have := (dispatch_tips_iff "cartesian" d).mp h; simp at this
+  · simp
+
+/-- **the written lattice map is drawn by the class that reading dispatches to**: whatever `saveToStream` writes for
+(geom, domain) is the drawing of `dispatch geom domain`, and `_readGridContentsLattice` reads it with that same class -/
+theorem save_uses_reading_class (g d : String) (labels : Labels) (k : Kind) (lines : List (List String))
+    (h : saveLattice g d labels = some (k, lines)) :
+    dispatch g d = some k ∧
+    readLattice g d lines = (readAscii k lines).map
+      (fun m => if k == .cart && d == "full" then cartCentre m.labels else dataOf m.labels) := by
+  unfold saveLattice at h
+  cases hd : dispatch g d with
+  | none => simp [hd] at h
+  | some k' =>
+    simp only [hd] at h
+    split at h
+    · simp at h
+    · split at h
+      · simp only [Option.some.injEq, Prod.mk.injEq] at h
+        obtain ⟨rfl, _⟩ := h
+        refine ⟨rfl, ?_⟩
+        unfold readLattice
+        simp only [hd]
+        cases readAscii k' lines <;> simp
+      · simp at h
+
+private theorem get_dataOf (L : Labels) (cell : Cell) (v : String) (h : get? L cell = some v) (hv : v ≠ PLACEHOLDER) :
+    get? (dataOf L) cell = some v := by
+  induction L with
+  | nil => simp [get?] at h
+  | cons p ps ih =>
+    unfold get? dataOf at *
+    simp only [List.find?_cons, List.filter_cons] at h ⊢
+    by_cases hk : (p.1 == cell) = true
+    · simp only [hk] at h
+      simp only [Option.map_some, Option.some.injEq] at h
+      have hp : (p.2 != PLACEHOLDER) = true := by rw [h]; simpa using hv
+      rw [if_pos hp, List.find?_cons, hk]
+      simp [h]
+    · simp only [hk] at h
+      by_cases hp : (p.2 != PLACEHOLDER) = true
+      · rw [if_pos hp, List.find?_cons]; simp only [hk]; exact ih h
+      · rw [if_neg hp]; exact ih h
+
+/-- **corners-up full-core lattices (the usual pin-lattice geometry), saved and read again** (`_partial`: data labels, the two
+anchor cells `(M, 0)` and `(M, -M)` occupied — in particular every complete pin map): the lattice map that `saveToStream`
+writes for `geom: hex_corners_up`, `symmetry: full` is read back by `_readGridContentsLattice` with every specifier at its
+own index. -/
+theorem corners_up_save_read_partial (L : Labels) (lines : List (List String)) (k : Kind) (M : Int) (hM : 0 ≤ M)
+    (hdata : ∀ p ∈ L, IsData p.2)
+    (hhex : ∀ p ∈ L, -M ≤ p.1.1 ∧ p.1.1 ≤ M ∧ -M ≤ p.1.1 + p.1.2 ∧ p.1.1 + p.1.2 ≤ M)
+    (hA : ∃ v, ((M, 0), v) ∈ L) (hC : ∃ v, ((M, -M), v) ∈ L)
+    (hs : saveLattice "hex_corners_up" "full" L = some (k, lines)) :
+    k = .tips ∧ ∃ L', readLattice "hex_corners_up" "full" lines = some L' ∧
+      ∀ cell v, get? L cell = some v → get? L' cell = some v := by
+  have hd : dispatch "hex_corners_up" "full" = some .tips := by decide +kernel
+  unfold saveLattice at hs
+  simp only [hd] at hs
+  have hk : (Kind.tips == Kind.cart && "full" == "full") = false := by decide
+  simp only [hk, Bool.false_eq_true, if_false] at hs
+  cases hw : gridContentsToAscii .tips L with
+  | none => simp [hw] at hs
+  | some m =>
+    simp only [hw] at hs
+    split at hs
+    · simp only [Option.some.injEq, Prod.mk.injEq] at hs
+      obtain ⟨rfl, rfl⟩ := hs
+      refine ⟨rfl, ?_⟩
+      obtain ⟨m', hr, hall⟩ := tips_write_read_id_partial L m M hM hdata hhex hA hC hw
+      refine ⟨dataOf m'.labels, ?_, ?_⟩
+      · unfold readLattice; simp only [hd, hr, hk, Bool.false_eq_true, if_false]
+      · intro cell v hv
+        have hmem : (cell, v) ∈ L := by
+          unfold get? at hv
+          cases hf : L.find? (fun p => p.1 == cell) with
+          | none => simp [hf] at hv
+          | some p =>
+            simp [hf] at hv
+            have := List.mem_of_find?_eq_some hf
+            have hpk := List.find?_some hf
+            simp at hpk
+            rw [← hv, ← hpk]; exact this
+        exact get_dataOf _ _ _ (hall cell v hv) (hdata _ hmem).2.2.1
+    · cases hs
+
+
+example : saveLattice "hex_corners_up" "full" [((0, 0), "A"), ((1, 0), "B"), ((0, 1), "C"), ((-1, 1), "A"), ((-1, 0), "A"), ((0, -1), "A"), ((1, -1), "D")]
+    = some (.tips, [["-", "C", "B"], ["A", "A", "D"], ["A", "A"]]) := by decide +kernel
+example : dispatch "hex_corners_up" "full" = some .tips ∧ dispatch "hex" "full" = some .full ∧ dispatch "hex_corners_up" "third" = some .third
+    ∧ dispatch "cartesian" "quarter" = some .cart ∧ dispatch "cartesian" "eighth" = none := by decide +kernel
+
+
 section Examples
 /-! Non-vacuity: concrete instances of the hypotheses. -/
 private def exL : Labels := [((0, 0), "A"), ((1, 0), "F1"), ((0, 1), "C"), ((2, 1), "B")]
@@ -2494,6 +2604,178 @@ example : multFromGrid [((0, 0), "1"), ((1, 0), "2"), ((0, 1), "1")] ["1"] none 
 example : multFromGrid [((0, 0), "1"), ((1, 0), "2"), ((0, 1), "1")] ["1"] (some 5) = none := by decide +kernel
 
 
+/-! ### declaration order and linked dimensions -/
+
+private theorem comp_unique : ∀ (cs : List Comp), (cs.map (·.name)).Nodup → ∀ a ∈ cs, ∀ b ∈ cs, a.name = b.name → a = b := by
+  intro cs
+  induction cs with
+  | nil => intro _ a ha; cases ha
+  | cons c cs ih =>
+    intro hnd a ha b hb hab
+    simp only [List.map_cons, List.nodup_cons] at hnd
+    rcases List.mem_cons.mp ha with rfl | ha' <;> rcases List.mem_cons.mp hb with rfl | hb'
+    · rfl
+    · exact absurd (List.mem_map.mpr ⟨b, hb', hab.symm⟩) hnd.1
+    · exact absurd (List.mem_map.mpr ⟨a, ha', hab⟩) hnd.1
+    · exact ih hnd.2 a ha' b hb' hab
+
+/-- looking a component up by name does not depend on the declaration order (names are unique: yamlize refuses duplicates) -/
+theorem findComp_perm (cs₁ cs₂ : List Comp) (h : cs₁.Perm cs₂) (hnd : (cs₁.map (·.name)).Nodup) (n : String) :
+    findComp cs₁ n = findComp cs₂ n := by
+  have hnd2 : (cs₂.map (·.name)).Nodup := (h.map (·.name)).nodup_iff.mp hnd
+  unfold findComp
+  cases h1 : cs₁.find? (fun c => c.name == n) with
+  | none =>
+    have : ∀ x ∈ cs₂, ¬ ((x.name == n) = true) := by
+      intro x hx
+      exact List.find?_eq_none.mp h1 x (h.symm.subset hx)
+    exact (List.find?_eq_none.mpr this).symm
+  | some a =>
+    have ha := List.mem_of_find?_eq_some h1
+    have han : (a.name == n) = true := by have := List.find?_some h1; simpa using this
+    cases h2 : cs₂.find? (fun c => c.name == n) with
+    | none => exact absurd han (List.find?_eq_none.mp h2 a (h.subset ha))
+    | some b =>
+      have hb := List.mem_of_find?_eq_some h2
+      have hbn : (b.name == n) = true := by have := List.find?_some h2; simpa using this
+      have : a.name = b.name := by
+        have := eq_of_beq han; have := eq_of_beq hbn; simp_all
+      rw [comp_unique cs₂ hnd2 a (h.subset ha) b hb this]
+
+/-- **linked dimensions do not depend on the declaration order of the components**: every `name.dim` link resolves to the
+same number (or is refused alike) on every permutation of the block's component list -/
+theorem resolve_perm (cs₁ cs₂ : List Comp) (h : cs₁.Perm cs₂) (hnd : (cs₁.map (·.name)).Nodup) :
+    ∀ (fuel : Nat) (c k : String), resolve cs₁ fuel c k = resolve cs₂ fuel c k := by
+  intro fuel
+  induction fuel with
+  | zero => intro c k; rfl
+  | succ f ih =>
+    intro c k
+    unfold resolve
+    rw [findComp_perm cs₁ cs₂ h hnd c]
+    cases findComp cs₂ c with
+    | none => rfl
+    | some comp =>
+      simp only []
+      cases findDim comp k with
+      | none => rfl
+      | some d => cases d with
+        | num q => rfl
+        | link c' k' => exact ih c' k'
+
+
+/-! ### declaration order and the pin-to-duct check (HexBlock.verifyBlockDims) -/
+
+private theorem hexLt_irrefl (a : PComp) : hexLt a a = false := by
+  unfold hexLt; simp
+private theorem hexLt_asymm (a b : PComp) (h : hexLt a b = true) : hexLt b a = false := by
+  unfold hexLt at *; grind
+private theorem hexLt_negtrans (a b c : PComp) (h1 : hexLt a b = false) (h2 : hexLt b c = false) : hexLt a c = false := by
+  unfold hexLt at *; grind
+private theorem hexLt_incomparable_key (a b : PComp) (h1 : hexLt a b = false) (h2 : hexLt b a = false) :
+    a.op = b.op ∧ a.ip = b.ip := by
+  unfold hexLt at *; grind
+private theorem firstMin_none (l : List PComp) : firstMin l = none ↔ l = [] := by
+  cases l with
+  | nil => simp [firstMin]
+  | cons c cs =>
+    simp only [firstMin]
+    cases firstMin cs with
+    | none => simp
+    | some m => simp; split <;> simp
+private theorem firstMin_spec : ∀ (l : List PComp) (m : PComp), firstMin l = some m → m ∈ l ∧ ∀ x ∈ l, hexLt x m = false := by
+  intro l
+  induction l with
+  | nil => intro m h; simp [firstMin] at h
+  | cons c cs ih =>
+    intro m h
+    simp only [firstMin] at h
+    cases hc : firstMin cs with
+    | none =>
+      rw [hc] at h
+      have : cs = [] := (firstMin_none cs).mp hc
+      subst this
+      simp at h; subst h
+      simp [hexLt_irrefl]
+    | some m' =>
+      rw [hc] at h
+      obtain ⟨hm, hall⟩ := ih m' hc
+      by_cases hlt : hexLt m' c = true
+      · simp [hlt] at h; subst h
+        refine ⟨List.mem_cons_of_mem _ hm, ?_⟩
+        intro x hx
+        rcases List.mem_cons.mp hx with rfl | hx
+        · exact hexLt_asymm _ _ hlt
+        · exact hall x hx
+      · simp [hlt] at h; subst h
+        refine ⟨List.mem_cons_self, ?_⟩
+        intro x hx
+        rcases List.mem_cons.mp hx with rfl | hx
+        · exact hexLt_irrefl _
+        · exact hexLt_negtrans x m' _ (hall x hx) (by simpa using hlt)
+
+/-- the innermost duct found in two orderings of the same components has the same outer and inner flat-to-flat -/
+theorem firstMin_perm (l₁ l₂ : List PComp) (h : l₁.Perm l₂) :
+    (firstMin l₁).map (fun d => (d.op, d.ip)) = (firstMin l₂).map (fun d => (d.op, d.ip)) := by
+  cases h1 : firstMin l₁ with
+  | none =>
+    have : l₁ = [] := (firstMin_none _).mp h1
+    subst this
+    have : l₂ = [] := List.Perm.eq_nil (h.symm)
+    subst this; simp [firstMin]
+  | some m₁ =>
+    cases h2 : firstMin l₂ with
+    | none =>
+      have : l₂ = [] := (firstMin_none _).mp h2
+      subst this
+      have : l₁ = [] := List.Perm.eq_nil h
+      subst this; simp [firstMin] at h1
+    | some m₂ =>
+      obtain ⟨hm1, ha1⟩ := firstMin_spec _ _ h1
+      obtain ⟨hm2, ha2⟩ := firstMin_spec _ _ h2
+      have k := hexLt_incomparable_key m₁ m₂ (ha2 m₁ (h.subset hm1)) (ha1 m₂ (h.symm.subset hm2))
+      simp [k.1, k.2]
+
+private theorem getOne_perm (p : PComp → Bool) (l₁ l₂ : List PComp) (h : l₁.Perm l₂) : getOne p l₁ = getOne p l₂ := by
+  have hf : (l₁.filter p).Perm (l₂.filter p) := h.filter p
+  unfold getOne
+  match h1 : l₁.filter p, h2 : l₂.filter p with
+  | [], [] => rfl
+  | [a], [b] =>
+    rw [h1, h2] at hf
+    have := List.perm_singleton.mp hf
+    simp_all
+  | [], _ :: _ => rw [h1, h2] at hf; exact absurd hf.length_eq (by simp)
+  | _ :: _, [] => rw [h1, h2] at hf; exact absurd hf.length_eq (by simp)
+  | [a], _ :: _ :: _ => rw [h1, h2] at hf; exact absurd hf.length_eq (by simp)
+  | _ :: _ :: _, [b] => rw [h1, h2] at hf; exact absurd hf.length_eq (by simp)
+  | _ :: _ :: _, _ :: _ :: _ => rfl
+
+/-- **declaration order does not matter for the pin-to-duct check**: `verifyBlockDims` gives the same verdict on every
+permutation of the block's component list (in particular: outer duct written before the inner duct). -/
+theorem verifyBlockDims_perm (l₁ l₂ : List PComp) (h : l₁.Perm l₂) : verifyBlockDims l₁ = verifyBlockDims l₂ := by
+  unfold verifyBlockDims
+  rw [getOne_perm _ l₁ l₂ h, getOne_perm _ l₁ l₂ h]
+  have hd := firstMin_perm _ _ (h.filter (·.duct))
+  cases hw : getOne (·.wire) l₂ <;> cases hc : getOne (·.clad) l₂ <;> simp only []
+  rename_i w c
+  cases h1 : firstMin (l₁.filter (·.duct)) <;> cases h2 : firstMin (l₂.filter (·.duct)) <;> rw [h1, h2] at hd <;> simp at hd
+  rename_i d₁ d₂
+  cases w <;> cases c <;> simp only []
+  unfold gapTooSmall
+  rw [hd.2]
+
+
+/-- an outer-first two-duct block whose 19 wire-wrapped pins (outer flat-to-flat ≈ 5.01) exceed the inner duct (ip 4.8)
+but fit the outer duct (ip 6): refused in both orders; with a roomy inner duct (ip 5.2) accepted -/
+private def exPins (ipInner : Rat) : List PComp :=
+  [⟨"outer duct", true, false, false, 31/5, 6, 0, 1⟩, ⟨"clad", false, true, false, 0, 0, 1, 19⟩,
+   ⟨"wire", false, false, true, 0, 0, 1/10, 19⟩, ⟨"inner duct", true, false, false, ipInner + 1/5, ipInner, 0, 1⟩]
+example : verifyBlockDims (exPins (24/5)) = .refuse ∧ verifyBlockDims (exPins (24/5)).reverse = .refuse := by decide +kernel
+example : verifyBlockDims (exPins (26/5)) = .accept ∧ verifyBlockDims (exPins (26/5)).reverse = .accept := by decide +kernel
+example : numRings 19 = 3 ∧ numRings 1 = 1 ∧ numRings 7 = 2 ∧ numRings 20 = 4 ∧ numRings 271 = 10 := by decide +kernel
+
+
 section Examples
 /-! Non-vacuity for the blueprint theorems. -/
 private def exComps : List Comp :=
@@ -2505,6 +2787,8 @@ example : resolve exComps (fuelFor exComps) "bond" "od" = some (7/8) := by decid
 /-- a two-cycle is closed under "links to": the hypothesis of `cyclic_links_rejected` is satisfiable -/
 example : declared exComps "x" "a" = some (.link "y" "b") ∧ declared exComps "y" "b" = some (.link "x" "a") := by
   decide +kernel
+/-- `resolve_perm`: the same chain on the reversed declaration order -/
+example : resolve exComps.reverse (fuelFor exComps) "bond" "od" = some (7/8) := by decide +kernel
 example : stack [5/2, 10, 1/4] = [(0, 5/2), (5/2, 25/2), (25/2, 51/4)] := by decide +kernel
 example : (place [⟨"a0", "A1", [], [], [], []⟩] [((0, 0), "A1"), ((1, -1), "A1")]).isSome = true := by decide +kernel
 example : place [⟨"a0", "A1", [], [], [], []⟩] [((0, 0), "A1"), ((1, -1), "ZZ")] = none := by decide +kernel
